@@ -3,6 +3,13 @@
 // Array8 at lg_k = 4: register model (per-slot maximum), num_zeros bookkeeping, merges with and without
 // down-sampling, rebuild_cached_values. HipEstimator::update is replaced by a recorder (no floats).
 use super::*;
+
+pub(crate) fn num_zeros_of(a: &Array8) -> u32 {
+    a.num_zeros
+}
+pub(crate) fn estimator_of(a: &Array8) -> &HipEstimator {
+    &a.estimator
+}
 use crate::hll::estimator::verif_kani_hll_estimator as ve;
 use crate::hll::estimator::verif_kani_hll_estimator::rec_update;
 use crate::hll::pack_coupon;
